@@ -498,7 +498,12 @@ func (s *setSubj[T]) GenRead(r *Rng, id int) Op {
 	return Op{ID: id, N: n, A: []int{r.Intn(len(s.d.Tab)), r.Intn(len(s.d.Tab)), r.Intn(7)}}
 }
 
-func (s *setSubj[T]) DoRead(op Op) string { return s.doRead(op, nil) }
+func (s *setSubj[T]) DoRead(op Op) string {
+	if o, ok := readOther.(*setSubj[T]); ok && o != s && o.cfg.Kind == s.cfg.Kind && op.A[2]%2 == 0 {
+		return s.doRead(op, o)
+	}
+	return s.doRead(op, nil)
+}
 
 func (s *setSubj[T]) doRead(op Op, other *setSubj[T]) string {
 	a := op.A
